@@ -118,6 +118,11 @@ fn expr(e: &Expr) -> R<String> {
             Member::Named(id) => format!("({} {})", field_name(&id.to_string()), expr(&f.base)?),
             _ => return Err("tuple field outside subset".into()),
         },
+        // `.0` / `.1` of a pair
+        Expr::Field(f) if matches!(&f.member, Member::Unnamed(i) if i.index <= 1) && matches!(&*f.base, Expr::MethodCall(_)) => match &f.member {
+            Member::Unnamed(i) => format!("({} {})", if i.index == 0 { "fst" } else { "snd" }, expr(&f.base)?),
+            _ => unreachable!(),
+        },
         Expr::Paren(p) => expr(&p.expr)?,
         Expr::Reference(r) => expr(&r.expr)?,
         Expr::Unary(u) => match u.op {
@@ -144,7 +149,24 @@ fn expr(e: &Expr) -> R<String> {
             _ => return Err(format!("binary operator outside subset: {}", b.to_token_stream())),
         },
         Expr::Call(c) if c.args.len() == 1 && matches!(&*c.func, Expr::Path(p) if path_name(&p.path) == "String_from") => expr(&c.args[0])?,
-        Expr::MethodCall(m) if (m.method == "into" || m.method == "to_string") && m.args.is_empty() => expr(&m.receiver)?,
+        Expr::MethodCall(m) if (m.method == "into" || m.method == "to_string" || m.method == "to_owned") && m.args.is_empty() => expr(&m.receiver)?,
+        // trivia updates: functions of the mirror (which holds no trivia, so they return their receiver)
+        Expr::MethodCall(m) if (m.method == "update_trailing_trivia" || m.method == "update_leading_trivia") && m.args.len() == 1 => format!("({} {} {})", m.method, expr(&m.receiver)?, expr(&m.args[0])?),
+        Expr::Call(c) if c.args.len() == 1 && matches!(&*c.func, Expr::Path(p) if path_name(&p.path) == "Box_new") => expr(&c.args[0])?,
+        // `Enum::Variant { field: e, .. }` with every field given, in the order of the mirror's constructor; a field the mirror
+        // keeps no content of (OPAQUE_FIELDS: spans of tokens with their trivia) is `tt`
+        Expr::Struct(st) if st.rest.is_none() && st.qself.is_none() => {
+            let name = path_name(&st.path);
+            let fs = fields(&name).ok_or(format!("struct literal of unknown constructor {}", name))?;
+            let mut slots: Vec<Option<String>> = fs.iter().map(|_| None).collect();
+            for f in &st.fields {
+                let id = match &f.member { Member::Named(id) => id.to_string(), _ => return Err("tuple struct literal outside subset".into()) };
+                let idx = fs.iter().position(|x| *x == id).ok_or(format!("unknown field {} of {}", id, name))?;
+                slots[idx] = Some(if OPAQUE_FIELDS.contains(&id.as_str()) { "tt".to_string() } else { expr(&f.expr)? });
+            }
+            if slots.iter().any(|x| x.is_none()) { return Err(format!("struct literal of {} does not give every field", name)); }
+            format!("({} {})", name, slots.into_iter().map(|x| x.unwrap()).collect::<Vec<_>>().join(" "))
+        }
         // `self.config().field` as well as `ctx.config().field`
         Expr::Call(c) => {
             let mut a = vec![];
@@ -180,7 +202,7 @@ fn expr(e: &Expr) -> R<String> {
         // a panic is a distinguished value of the mirrored result type (FmAst.rs_unreachable); the theorems show it is never returned
         Expr::Macro(m) if m.mac.path.is_ident("unreachable") => "rs_unreachable".to_string(),
         // accessors mirrored as functions of FmAst.v; `.iter().next()` is the head of a list
-        Expr::MethodCall(m) if m.args.is_empty() && ["prefix", "variables", "lhs", "start_position", "end_position", "bytes", "suffixes", "stmts", "last_stmt", "names", "expressions", "returns", "args", "else_if", "else_block", "block", "then_token", "end_token"].contains(&m.method.to_string().as_str()) => format!("({} {})", m.method, expr(&m.receiver)?),
+        Expr::MethodCall(m) if m.args.is_empty() && ["prefix", "variables", "lhs", "start_position", "end_position", "bytes", "suffixes", "stmts", "last_stmt", "names", "expressions", "returns", "args", "else_if", "else_block", "block", "then_token", "end_token", "tokens"].contains(&m.method.to_string().as_str()) => format!("({} {})", m.method, expr(&m.receiver)?),
         // `.name()` would be captured by a Rust variable called `name`: the mirror calls the projection method_name
         Expr::MethodCall(m) if m.args.is_empty() && m.method == "name" => format!("(method_name {})", expr(&m.receiver)?),
         Expr::MethodCall(m) if m.args.is_empty() && m.method == "iter" => expr(&m.receiver)?,
@@ -217,6 +239,8 @@ fn block(stmts: &[Stmt]) -> R<String> {
         Some((Stmt::Expr(Expr::Return(r), _), _)) => expr(r.expr.as_ref().ok_or("return without value")?),
         Some((Stmt::Expr(Expr::If(i), _), rest)) if !rest.is_empty() => if_stmt(i, &block(rest)?),
         Some((Stmt::Local(l), rest)) => local_stmt(l, &block(rest)?),
+        // a function declared inside the body: translated on its own (the kernel lists it as `outer::inner`)
+        Some((Stmt::Item(Item::Fn(_)), rest)) => block(rest),
         Some((Stmt::Expr(Expr::Match(m), Some(_)), rest)) => { let k2 = block(rest)?; arms_k(&expr(&m.expr)?, &m.arms, &k2) }
         Some((Stmt::Expr(Expr::ForLoop(_), _), rest)) => {
             let n = FOR_LOOPS.with(|c| { c.set(c.get() + 1); c.get() });
@@ -243,6 +267,8 @@ fn local_stmt(l: &Local, k: &str) -> R<String> {
     }
     let name = match &l.pat {
         Pat::Ident(i) if i.subpat.is_none() && i.by_ref.is_none() && i.mutability.is_none() => i.ident.to_string(),
+        // `let (a, b) = e;`
+        Pat::Tuple(_) => format!("'{}", pat(&l.pat)?),
         other => return Err(format!("let pattern outside subset: {}", other.to_token_stream())),
     };
     let init = l.init.as_ref().ok_or("let without initialiser")?;
@@ -333,6 +359,8 @@ fn arms(scrut: &str, arms_: &[Arm]) -> R<String> {
     Ok(out + "\n  end")
 }
 
+/// fields that hold spans of tokens with their trivia: the mirrors give them the type unit
+const OPAQUE_FIELDS: &[&str] = &["contained"];
 struct Kernel {
     file: &'static str,
     /// name reported on the TRANSLATED / UNTRANSLATABLE line
@@ -350,6 +378,16 @@ const KERNELS: &[Kernel] = &[
         name: "check_excess_parentheses",
         funcs: &[("check_excess_parentheses", "Fixpoint check_excess_parentheses (internal_expression : Expression) (context : ExpressionContext) {struct internal_expression} : bool :=")],
         module: "CheckExcess",
+        mirror: "FmAst",
+    },
+    Kernel {
+        file: "src/formatters/expression.rs",
+        name: "double_minus_guard",
+        funcs: &[
+            ("parenthesise_double_minus::starts_with_minus", "Fixpoint starts_with_minus (expression : Expression) {struct expression} : bool :="),
+            ("parenthesise_double_minus", "Definition parenthesise_double_minus (trivia_util_take_trailing_comments : Expression -> Expression * unit) (unop : UnOp) (expression : Expression) : Expression :="),
+        ],
+        module: "MinusGuard",
         mirror: "FmAst",
     },
     Kernel {
@@ -415,6 +453,13 @@ const KERNELS: &[Kernel] = &[
     },
     Kernel {
         file: "src/formatters/stmt.rs",
+        name: "condition_parentheses",
+        funcs: &[("remove_condition_parentheses", "Section Oracles.\nVariable parentheses_contain_comments : ContainedSpan -> bool.\nVariable has_leading_comments : TokenReference -> CommentSearch -> bool.\nFixpoint remove_condition_parentheses (expression : Expression) {struct expression} : Expression := ||| End Oracles.")],
+        module: "CondParens",
+        mirror: "FmAstCond",
+    },
+    Kernel {
+        file: "src/formatters/stmt.rs",
         name: "if_guard",
         funcs: &[("is_if_guard", "Definition is_if_guard (trivia_util_contains_comments : forall {A : Type}, A -> bool) (has_leading_comments : TokenReference -> CommentSearch -> bool) (if_node : If) : bool :=")],
         module: "IfGuard",
@@ -424,6 +469,13 @@ const KERNELS: &[Kernel] = &[
 
 /// body of a free function or of a method of any impl block
 fn find_body<'a>(f: &'a File, name: &str) -> Option<&'a Block> {
+    // `outer::inner`: a function declared inside the body of another
+    if let Some((outer, inner)) = name.split_once("::") {
+        return find_body(f, outer)?.stmts.iter().find_map(|st| match st {
+            Stmt::Item(Item::Fn(func)) if func.sig.ident == inner => Some(&*func.block),
+            _ => None,
+        });
+    }
     f.items.iter().find_map(|it| match it {
         Item::Fn(func) if func.sig.ident == name => Some(&*func.block),
         Item::Impl(im) => im.items.iter().find_map(|ii| match ii {
@@ -676,7 +728,11 @@ fn main() {
                 let func = find_body(&f, name).ok_or(format!("function {} not found in {}", name, k.file))?;
                 FOR_LOOPS.with(|c| c.set(0));
                 let body = block(&func.stmts)?;
-                text += &format!("{}\n  {}.\n", header, body);
+                // `header ||| footer`: oracle parameters of a recursive function are section variables, the section is closed behind the body
+                match header.split_once("|||") {
+                    Some((h, foot)) => text += &format!("{}\n  {}.\n{}\n", h.trim_end(), body, foot.trim_start()),
+                    None => text += &format!("{}\n  {}.\n", header, body),
+                }
             }
             Ok(text)
         })();
